@@ -116,10 +116,17 @@ Section Checker.
       | [] => Ok tt
       | x :: l' => match conv_ok x with Ok _ => go l' | Raise e => Raise e end
       end in
+    (* arguments of type[...]: classes are kept as they are *)
+    let fix go_type (l : list ann) : outcome unit :=
+      match l with
+      | [] => Ok tt
+      | ACls _ :: l' => go_type l'
+      | x :: l' => match conv_ok x with Ok _ => go_type l' | Raise e => Raise e end
+      end in
     match a with
     | ACls c => if in_cls c (conv_bare cfg) then Raise ValueErrorC else Ok tt
     | AGeneric SpBuiltin o args =>
-        match go args with
+        match (if tname_eqb o TType && conv_type_keeps_classes cfg then go_type args else go args) with
         | Raise e => Raise e
         | Ok _ => if existsb (tname_eqb o) (conv_origins cfg)
                   then (if typing_arity_ok o (List.length args) then Ok tt else Raise TypeErrorC)
@@ -163,6 +170,18 @@ Section Checker.
 
   Definition builtin_len_sig : fsig := {| fs_params := [(None, false)]; fs_ret := None; fs_coroutine := false |}.
 
+  (* inspect.signature(<class>) for the classes of the universe (CPython 3.12; validated by the
+     correspondence): None = "no signature found" (ValueError) *)
+  Definition sig_of_params (ps : list (option (option cls) * bool)) : fsig :=
+    {| fs_params := ps; fs_ret := None; fs_coroutine := false |}.
+  Definition class_sig (c : cls) : option fsig :=
+    match c with
+    | CObject | CDictKeys | CDictValues | CDictItems | CListIterator | CBuiltinFn | CInspectEmpty | CUser _ => Some (sig_of_params [])
+    | CFloat | CList | CTuple => Some (sig_of_params [(None, true)])
+    | CFunction => Some (sig_of_params [(None, false); (None, false); (None, true); (None, true); (None, true)])
+    | _ => None
+    end.
+
   (* _instancecheck_callable *)
   Definition callable_fun (ps : option (list ann)) (r : ann) (s : fsig) : outcome bool :=
     let required := filter (fun p => negb (snd p)) (fs_params s) in
@@ -190,8 +209,12 @@ Section Checker.
     | VLambda => Ok true
     | VFun s => callable_fun ps r s
     | VBuiltinFn => callable_fun ps r builtin_len_sig
-    | VClass _ => Raise ValueErrorC
-    | _ => Ok false          (* inspect.signature raises TypeError for non-callables *)
+    | VClass c =>
+        match class_sig c with
+        | Some s => callable_fun ps r s
+        | None => if existsb (derives ValueErrorC) (sig_catches cfg) then Ok false else Raise ValueErrorC
+        end
+    | _ => if existsb (derives TypeErrorC) (sig_catches cfg) then Ok false else Raise TypeErrorC   (* not callable *)
     end.
 
   (* the TypeVar branch of _is_instance *)
@@ -229,7 +252,8 @@ Section Checker.
         | None => union_bounded l' tv0 v tv
         | Some _ =>
             match typevar_check t v tv with
-            | (Ok _, tv') => (Some (Ok true, tv'), tv')
+            | (Ok true, tv') => (Some (Ok true, tv'), tv')
+            | (Ok false, tv') => if un_bound_uses_result cfg then union_bounded l' tv0 v tv' else (Some (Ok true, tv'), tv')
             | (Raise e, tv') => if is_pedantic e then union_bounded l' tv0 v tv' else (Some (Raise e, tv'), tv')
             end
         end
@@ -447,8 +471,8 @@ Section Checker.
         else handle hs' e
     end.
 
-  (* _check_type: the None and str branches run outside the try *)
-  Definition check_type (a : ann) (v : value) (tv : tvenv) : res :=
+  (* _check_type around an arbitrary inner checker: the None and str branches run outside the try *)
+  Definition check_type_gen (inner : ann -> value -> tvenv -> res) (a : ann) (v : value) (tv : tvenv) : res :=
     match a with
     | ANone => (Ok (if none_by_eq cfg then match v with VNone => true | _ => false end else false), tv)
     | AStr n =>
@@ -457,19 +481,22 @@ Section Checker.
         | None => (Ok false, tv)
         end
     | _ =>
-        match is_inst a v tv with
+        match inner a v tv with
         | (Ok b, tv') => (Ok b, tv')
         | (Raise e, tv') => (handle (handlers cfg) e, tv')
         end
     end.
+  Definition check_type : ann -> value -> tvenv -> res := check_type_gen is_inst.
 
-  (* assert_value_matches_type *)
-  Definition assert_matches (a : ann) (v : value) (tv : tvenv) : outcome unit * tvenv :=
-    match check_type a v tv with
+  Definition assert_gen (inner : ann -> value -> tvenv -> res) (a : ann) (v : value) (tv : tvenv) : outcome unit * tvenv :=
+    match check_type_gen inner a v tv with
     | (Ok true, tv') => (Ok tt, tv')
     | (Ok false, tv') => (Raise (mismatch_raises cfg), tv')
     | (Raise e, tv') => (Raise e, tv')
     end.
+
+  (* assert_value_matches_type *)
+  Definition assert_matches : ann -> value -> tvenv -> outcome unit * tvenv := assert_gen is_inst.
 End Checker.
 
 (* two-level definition: an annotation a TypeVar is bound to (type argument of Cls[X]) is
